@@ -288,11 +288,59 @@ func safeUnmarshal(res xsel.Result, v any, set ...xsel.ContextApply) (err error)
 	return xsel.Unmarshal(res, v, set...)
 }
 
+// c19Tree is a recursive target type: the whole subtree of an element, however deep.
+type c19Tree struct {
+	Name string    `xsel:"name()"`
+	Kids []c19Tree `xsel:"*"`
+}
+
+func checkC19Tree(cur store.Cursor, t *c19Tree, path string) error {
+	g := xsel.MustBuildExpr("name()")
+	r, err := safeExec(cur, &g)
+	if err != nil {
+		return fmt.Errorf("harness: %v", err)
+	}
+	if t.Name != r.String() {
+		return fmt.Errorf("%s.Name = %q, the element's name() is %q", path, t.Name, r.String())
+	}
+	var elems []store.Cursor
+	for _, k := range cur.Children() {
+		if xmodel.KindOfCursor(k) == xmodel.Elem {
+			elems = append(elems, k)
+		}
+	}
+	if len(t.Kids) != len(elems) {
+		return fmt.Errorf("%s.Kids has %d elements, the element has %d element children", path, len(t.Kids), len(elems))
+	}
+	for i := range elems {
+		if err := checkC19Tree(elems[i], &t.Kids[i], fmt.Sprintf("%s.Kids[%d]", path, i)); err != nil {
+			return err
+		}
+	}
+	return nil
+}
+
 func checkC19(c *c19Case) error {
 	p, err := prepareDoc(c.Events)
 	if err != nil {
 		st.Discard("document-not-mirrored")
 		return nil
+	}
+	if len(p.doc.All)%3 == 0 || len(c.Events) > 150 {
+		// the document element into a recursive type ("struct fields recursively", for all nestings)
+		for _, top := range p.root.Children() {
+			if xmodel.KindOfCursor(top) != xmodel.Elem {
+				continue
+			}
+			var tree c19Tree
+			if err := safeUnmarshal(xsel.NodeSet{top}, &tree); err != nil {
+				return fmt.Errorf("Unmarshal of the document element into the recursive type c19Tree failed: %v", err)
+			}
+			if err := checkC19Tree(top, &tree, "tree"); err != nil {
+				return fmt.Errorf("Unmarshal of the document element into the recursive type c19Tree: %v", err)
+			}
+			break
+		}
 	}
 	g, err := buildExpr(c.Select)
 	if err != nil {
